@@ -57,3 +57,168 @@ def name_assigned_from(f, pred):
                 if isinstance(t, ast.Name) and not isinstance(v, tuple) and pred(v):
                     return t.id
     return None
+
+
+# ------------------------------------------------------------------------------------------------------------------------
+# flow-insensitive local dependence closure
+MUTATORS = {'append', 'extend', 'add', 'insert', 'update', 'appendleft'}
+
+
+def local_deps(f):
+    """{local name: set of atoms} -- what a local may depend on, closed over assignments, augmented assignments, loop and
+    comprehension targets (they depend on the iterable), container mutators (`x.append(y)`: x depends on y) and element
+    stores (`x[i] = y`).  Atoms: ('attr', name) for every attribute read, ('call', function name) for every call,
+    ('param', name), ('const', value) for constants, ('sub',) for subscripts.  May-dependence: an atom that is absent
+    proves that the value cannot depend on it."""
+    direct = {}
+
+    def atoms_of(e):
+        at, names = set(), set()
+        for n in ast.walk(e):
+            if isinstance(n, ast.Attribute):
+                at.add(('attr', n.attr))
+            elif isinstance(n, ast.Call):
+                at.add(('call', norm(n.func).split('.')[-1]))
+            elif isinstance(n, ast.Name) and isinstance(n.ctx, ast.Load):
+                names.add(n.id)
+            elif isinstance(n, ast.Constant) and isinstance(n.value, (int, float, complex, str)) and not isinstance(n.value, bool):
+                at.add(('const', n.value))
+        return at, names
+
+    def add(target_name, e):
+        at, names = atoms_of(e)
+        d = direct.setdefault(target_name, [set(), set()])
+        d[0] |= at
+        d[1] |= names
+
+    def targets(t):
+        for n in ast.walk(t):
+            if isinstance(n, ast.Name):
+                yield n.id
+
+    for n in ast.walk(f.node):
+        if isinstance(n, ast.Assign):
+            for t in n.targets:
+                if isinstance(t, (ast.Subscript, ast.Attribute)):
+                    r = t
+                    while isinstance(r, (ast.Subscript, ast.Attribute)):
+                        r = r.value
+                    if isinstance(r, ast.Name):
+                        add(r.id, n.value)
+                else:
+                    for x in targets(t):
+                        add(x, n.value)
+        elif isinstance(n, ast.AugAssign):
+            r = n.target
+            while isinstance(r, (ast.Subscript, ast.Attribute)):
+                r = r.value
+            if isinstance(r, ast.Name):
+                add(r.id, n.value)
+        elif isinstance(n, (ast.For, ast.comprehension)):
+            for x in targets(n.target):
+                add(x, n.iter)
+        elif isinstance(n, ast.Call) and isinstance(n.func, ast.Attribute) and n.func.attr in MUTATORS and isinstance(n.func.value, ast.Name):
+            for a in n.args:
+                add(n.func.value.id, a)
+        elif isinstance(n, ast.NamedExpr):
+            for x in targets(n.target):
+                add(x, n.value)
+    out = {}
+    for p in f.params:
+        out[p] = {('param', p)}
+
+    def close(name, seen):
+        if name in out and name not in direct:
+            return out[name]
+        if name in seen:
+            return set()
+        seen = seen | {name}
+        res = set(out.get(name, set()))
+        d = direct.get(name)
+        if d:
+            res |= d[0]
+            for m in d[1]:
+                res |= close(m, seen)
+        return res
+    return {name: close(name, frozenset()) for name in set(direct) | set(f.params)}
+
+
+def expr_deps(f, e, deps=None):
+    """Atoms an expression may depend on (its own attribute reads / calls plus the closure of the names it mentions)."""
+    deps = deps if deps is not None else local_deps(f)
+    res = set()
+    for n in ast.walk(e):
+        if isinstance(n, ast.Attribute):
+            res.add(('attr', n.attr))
+        elif isinstance(n, ast.Call):
+            res.add(('call', norm(n.func).split('.')[-1]))
+        elif isinstance(n, ast.Name) and isinstance(n.ctx, ast.Load):
+            res |= deps.get(n.id, {('param', n.id)} if n.id in f.params else set())
+        elif isinstance(n, ast.Constant) and isinstance(n.value, (int, float, complex, str)) and not isinstance(n.value, bool):
+            res.add(('const', n.value))
+    return res
+
+
+def update_of(st):
+    """(name, operator class, operand) for `x = x op e`, `x = e op x` (commutative op) and `x op= e`; else None."""
+    if isinstance(st, ast.AugAssign) and isinstance(st.target, ast.Name):
+        return st.target.id, type(st.op), st.value
+    if isinstance(st, ast.Assign) and len(st.targets) == 1 and isinstance(st.targets[0], ast.Name) and isinstance(st.value, ast.BinOp):
+        x = st.targets[0].id
+        b = st.value
+        if isinstance(b.left, ast.Name) and b.left.id == x:
+            return x, type(b.op), b.right
+        if isinstance(b.right, ast.Name) and b.right.id == x and isinstance(b.op, (ast.Add, ast.Mult)):
+            return x, type(b.op), b.left
+    return None
+
+
+def allzero_polarity(test, name):
+    """True if `test` holds exactly when the array `name` is all zero, False if exactly when it is not, None if not recognised.
+    Read forms: (x == 0).all(), not x.any(), numpy.all(x == 0), not numpy.any(x), x.sum() == 0, numpy.count_nonzero(x) == 0."""
+    from .exprnf import ev, Undecidable
+
+    def is_name(n):
+        return isinstance(n, ast.Name) and n.id == name
+    vals = []
+    for az in (True, False):
+        def call(n, env, rec, az=az):
+            fn = n.func
+            last = fn.attr if isinstance(fn, ast.Attribute) else (fn.id if isinstance(fn, ast.Name) else '')
+            recv = fn.value if isinstance(fn, ast.Attribute) and not (isinstance(fn.value, ast.Name) and fn.value.id in ('numpy', 'np', 'torch')) else None
+            arg = recv if recv is not None else (n.args[0] if n.args else None)
+            if arg is None:
+                raise Undecidable('call')
+            eq0 = isinstance(arg, ast.Compare) and len(arg.ops) == 1 and isinstance(arg.ops[0], ast.Eq) and is_name(arg.left) \
+                and isinstance(arg.comparators[0], ast.Constant) and arg.comparators[0].value == 0
+            ne0 = isinstance(arg, ast.Compare) and len(arg.ops) == 1 and isinstance(arg.ops[0], ast.NotEq) and is_name(arg.left) \
+                and isinstance(arg.comparators[0], ast.Constant) and arg.comparators[0].value == 0
+            if last == 'all' and eq0:
+                return az
+            if last == 'any' and (is_name(arg) or ne0):
+                return not az
+            if last in ('sum', 'count_nonzero') and (is_name(arg) or ne0):
+                return 0 if az else 1
+            raise Undecidable('call ' + norm(n))
+        try:
+            vals.append(bool(ev(test, {}, call=call)))
+        except Undecidable:
+            return None
+    if vals == [True, False]:
+        return True
+    if vals == [False, True]:
+        return False
+    return None
+
+
+def is_full_index_range(it, array):
+    """`it` iterates 0 .. number of items of `array` - 1: range(len(A)), range(A.shape[0]), range(0, ...)."""
+    if not (isinstance(it, ast.Call) and isinstance(it.func, ast.Name) and it.func.id == 'range' and not it.keywords):
+        return False
+    args = list(it.args)
+    if len(args) == 2 and isinstance(args[0], ast.Constant) and args[0].value == 0:
+        args = args[1:]
+    if len(args) != 1:
+        return False
+    txt = norm(args[0]).replace(' ', '')
+    return txt in ('len(%s)' % array, '%s.shape[0]' % array, '%s.size(0)' % array, '%s.__len__()' % array)
